@@ -80,6 +80,9 @@ func (v Value) asLin() (*Lin, bool) {
 	return nil, false
 }
 
+// typeTest is the data of a "typeok" tag: the ok of `x, ok := v.(T)`.
+type typeTest struct{ Val, Type string }
+
 type termKind int
 
 const (
@@ -1092,12 +1095,18 @@ func (in *Interp) eval(st *State, e ast.Expr) []valState {
 			v := vs.v
 			v.T = in.c.typeOf(e)
 			if tup, ok := v.T.(*types.Tuple); ok && tup.Len() == 2 {
-				v = Value{K: vTuple, Tup: []Value{vs.v, unknownV()}}
+				// comma-ok form: the second value names the test
+				v = Value{K: vTuple, Tup: []Value{vs.v, tagV("typeok", typeTest{vs.v.String(), types.TypeString(tup.At(0).Type(), nil)})}}
 			}
 			out = append(out, valState{vs.st, v})
 		}
 		return out
 	case *ast.CompositeLit:
+		if in.h.Load != nil {
+			if v, ok := in.h.Load(in, st, e); ok {
+				return one(st, v)
+			}
+		}
 		var exprs []ast.Expr
 		for _, el := range e.Elts {
 			if kv, ok := el.(*ast.KeyValueExpr); ok {
